@@ -68,12 +68,15 @@ def prog_paths(pkg, paths, placement):
 EDGE_KINDS = ["call", "keep", "ref", "method"]
 
 
-def prog_cycle(pkg, edges, two_modules=False):
+BUILTIN_NAMES = ["format", "filter", "map", "sorted"]
+
+
+def prog_cycle(pkg, edges, two_modules=False, builtin_names=False):
     """f0 -e0-> f1 -e1-> ... -> f0 ; main -> f0 (main is outside the cycle unless len(edges)==... )"""
     p = gen.new_program(pkg)
     m0 = gen.add_module(p, "c0")
     n = len(edges)
-    fids = [gen.add_fn(p, m0, "cy%d" % i, const=i) for i in range(n)]
+    fids = [gen.add_fn(p, m0, (BUILTIN_NAMES[i] if builtin_names else "cy%d" % i), const=i) for i in range(n)]
     for i, e in enumerate(edges):
         tgt = fids[(i + 1) % n]
         f = p["fns"][fids[i]]
@@ -93,14 +96,14 @@ def prog_cycle(pkg, edges, two_modules=False):
     return p
 
 
-def prog_eval_in_eval(pkg, depth, via):
-    """main -> d1 -> ... -> d<depth> which calls dds.eval(inner)."""
+def prog_eval_in_eval(pkg, depth, via, spelling="dds.eval"):
+    """main -> d1 -> ... -> d<depth> which calls dds.eval(inner) (or eval(inner) after `from dds import eval`)."""
     p = gen.new_program(pkg)
     m0 = gen.add_module(p, "e0")
     inner = gen.add_fn(p, m0, "inner", const=5)
     chain = [gen.add_fn(p, m0, "d%d" % i, const=i) for i in range(depth + 1)]
     # deepest function contains the nested eval: rendered through a special statement
-    p["fns"][chain[-1]]["stmts"] = [{"k": "nested_eval", "fn": inner}]
+    p["fns"][chain[-1]]["stmts"] = [{"k": "nested_eval", "fn": inner, "spelling": spelling}]
     for i in range(depth):
         f = p["fns"][chain[i]]
         tgt = chain[i + 1]
@@ -192,8 +195,10 @@ def batch_job(arg):
 def _mech(kind, desc):
     if kind == "overlap" and not desc.get("adjacent"):
         return "overlap-not-adjacent"
-    if kind == "cycle" and desc.get("edges") == ["ref"]:
+    if kind == "cycle" and desc.get("edges") == ["ref"] and "names" not in desc:
         return "self-reference-through-higher-order"
+    if kind == "cycle" and desc.get("names") == "builtin-like" and "ref" in desc.get("edges", []):
+        return "reference-to-builtin-named-function-ignored"
     return None
 
 
@@ -246,10 +251,13 @@ def build_cases(tier, seed):
             if tier == "quick" and ln == 4 and (_hi(edges) + seed) % 4 != 0:
                 continue
             add("cycle", "CIRCULAR_CALL", prog_cycle("y%d" % n[0], list(edges)), {"edges": list(edges)})
+            if ln <= 3 or tier != "quick":
+                add("cycle", "CIRCULAR_CALL", prog_cycle("y%d" % n[0], list(edges), builtin_names=True), {"edges": list(edges), "names": "builtin-like"})
     # ---- eval in eval
     for depth in range(0, 5):
         for via in ("call", "keep", "method"):
             add("eval-in-eval", "EVAL_IN_EVAL", prog_eval_in_eval("v%d" % n[0], depth, via), {"depth": depth, "via": via})
+            add("eval-in-eval", "EVAL_IN_EVAL", prog_eval_in_eval("v%d" % n[0], depth, via, "eval"), {"depth": depth, "via": via, "spelling": "from dds import eval"})
     return cases
 
 
